@@ -45,6 +45,10 @@ def configs(tier):
     for d in ("top", "side"):
         out.append(dict(kind="angmom", d=d, dx=True, origin=True, ncell=2, repeat=True))
         out.append(dict(kind="angmom", d=d, dx=False, origin=True, ncell=len(LAYOUTS[0]), layout=0, repeat=True))
+    # the window given in other units than the positions (and dx, dy in two different units): same physical window
+    for d in ("top", "side"):
+        out.append(dict(kind="angmom", d=d, dx=True, origin=True, ncell=2, dxunit=("m", "mm")))
+        out.append(dict(kind="angmom", d=d, dx=True, origin=False, ncell=2, dxunit=("km", "km")))
     if tier != "quick":
         out.append(dict(kind="angmom", d="side", dx=True, origin=False, ncell=1, full=True))
         out.append(dict(kind="angmom", d="top", dx=True, origin=True, ncell=3))
@@ -155,12 +159,21 @@ def body(m, cfg):
     if cfg["dx"]:
         dx = ureg.Quantity(2.0, "cm")
         dy = ureg.Quantity(1.0, "cm")
+        if cfg.get("dxunit"):
+            dx, dy = dx.to(cfg["dxunit"][0]), dy.to(cfg["dxunit"][1])
+            tag += ":window-in-" + "+".join(cfg["dxunit"])
         rad = 0.75
     else:
         dx = dy = None
     P = [[m.t(t) for t in m.vals(c._array)] for c in C.vcomps(pos).values()]
     W = [[m.t(t) for t in m.vals(c._array)] for c in C.vcomps(vel).values()]
     M = [m.t(t) for t in m.vals(mass._array)]
+    if cfg.get("dxunit"):
+        # the radius goes through two float unit conversions: cells within a relative 1e-6 of the sphere's surface are left out
+        # (floats are modelled as reals; rounding is outside the claim)
+        for r in range(n):
+            rv_ = [P[k][r] - O[k] for k in range(3)]
+            m.assume(m.Or([dot(rv_, rv_) < (rad * (1 - 1e-6)) ** 2, dot(rv_, rv_) > (rad * (1 + 1e-6)) ** 2]))
     import io
     import contextlib
     from symx import install
